@@ -71,8 +71,44 @@ func runHistoryCase(c *Ctx, kind string, opts int, inputs [][]rune, abortAt int)
 			}
 			continue
 		}
-		got, st := tokenizeOn(t, string(in))
+		// the step goes through one of the public entry points in turn: TokenizeBuffer, TokenizeStream,
+		// an explicit SetReader + HasNextToken/NextToken loop, TokenizeBufferToStrings (values only)
+		var got []tk
+		var st string
+		valuesOnly := false
+		switch (i + len(inputs) + abortAt + 8) % 4 {
+		case 0:
+			got, st = tokenizeOn(t, string(in))
+		case 1:
+			st = safeCallT(3*time.Second, func() string { got = conv(t.TokenizeStream(newScanner(string(in)))); return "" })
+		case 2:
+			st = safeCallT(3*time.Second, func() string {
+				t.SetReader(newScanner(string(in)))
+				var it []*tokenizers.Token
+				for n := 0; t.HasNextToken() && n < len(in)+8; n++ {
+					it = append(it, t.NextToken())
+				}
+				got = conv(it)
+				return ""
+			})
+		default:
+			valuesOnly = true
+			st = safeCallT(3*time.Second, func() string {
+				for _, v := range t.TokenizeBufferToStrings(string(in)) {
+					got = append(got, tk{Val: []rune(v)})
+				}
+				return ""
+			})
+		}
 		fresh, st2 := tokenizeImpl(kind, opts, string(in))
+		if valuesOnly && st == "" && st2 == "" {
+			if valuesOf(got) != valuesOf(fresh) {
+				c.fail(Failure{Kind: "oracle", Op: opLabel, Impl: valuesOf(got), Spec: valuesOf(fresh),
+					Note: fmt.Sprintf("step %d (input %q, TokenizeBufferToStrings): reused instance gives the values %s, fresh instance %s", i, string(in), valuesOf(got), valuesOf(fresh))})
+				return
+			}
+			got = fresh
+		}
 		op := tokOpLine(kind, opts, in)
 		if st != "" || st2 != "" {
 			c.fail(Failure{Kind: "oracle", Op: opLabel, Impl: st + st2, Note: "tokenizer did not return normally"})
